@@ -189,6 +189,7 @@ class World:
             if how == "service":
                 cls = self.service_class(spec)
                 inst = cls()
+                inst._verif_pid = pid
                 self.services.append(inst)
                 rec["result"] = "created"
             elif how == "adopt":
@@ -530,6 +531,11 @@ def _driver(w, script, who):
                 w.event(step["name"]).set()
             elif op == "gc":
                 gc.collect()
+            elif op == "drop-service":
+                # forget a service instance (it is garbage collected if nothing else holds it, e.g. after its run() returned)
+                w.services[:] = [x for x in w.services if getattr(x, "_verif_pid", None) != step["pid"]]
+                gc.collect()
+                w.ev(None, "dropped", which=step["pid"])
             elif op == "sleep":
                 time.sleep(step["ms"] / 1000)
             elif op == "mark":
@@ -553,6 +559,13 @@ def _driver(w, script, who):
                 end = time.monotonic() + step.get("timeout_ms", 20000) / 1000
                 while time.monotonic() < end:
                     if sum(1 for o in list(w.ops) if o.get("op") == step["kind"] and "t_return" in o) >= step["n"]:
+                        break
+                    time.sleep(0.002)
+            elif op == "await-starts-of":
+                end = time.monotonic() + step.get("timeout_ms", 10000) / 1000
+                while time.monotonic() < end:
+                    seen = {e[2] for e in list(w.log) if e[3] == "finish" or e[3] == "start"}
+                    if all(p in {e[2] for e in list(w.log) if e[3] == "finish"} for p in step["pids"]):
                         break
                     time.sleep(0.002)
             elif op == "await-starts":
